@@ -31,13 +31,17 @@ Clause(r, c) ==
   CASE c = "C17.safe"   -> r.final \in {"Old", "New"}
     [] c = "C17.error"  -> /\ (r.status = "error" => r.final \in {"Old", "New"})
                            /\ (r.status = "ok" => (r.final = "New" \/ (r.same /\ r.final = "Old")))
-                           /\ (~r.encodable => (r.status = "error" /\ r.final = "Old"))
+                           \* (an unencodable request never succeeds and never costs the original - whether the run ends
+                           \* with the error or is killed at an injected fault before it gets there)
+                           /\ (~r.encodable => (r.status # "ok" /\ r.final = "Old"))
     [] c = "C17.works"  -> \* without a fault an encodable edit succeeds (a run the guard or the harness broke
                            \* must not pass for "nothing was lost")
                            (r.fault.at = 0 /\ r.fault.kind = "none" /\ r.encodable) => r.status = "ok"
     [] c = "C17.prefix" -> EveryPrefixSafe(r)
     [] c = "X17.fsmodel" -> \/ OnDisk(Predicted(r), "M") = r.final
                             \/ (r.same /\ {OnDisk(Predicted(r), "M"), r.final} \subseteq {"Old", "New"})
+                            \* (which kind of incomplete content - a prefix or something else - is not modelled)
+                            \/ {OnDisk(Predicted(r), "M"), r.final} \subseteq {"Partial", "Other"}
     [] c = "C18.readonly" -> r.status = "ok" /\ Len(r.ops) = 0 /\ r.added = <<>> /\ r.removed = <<>> /\ r.changed = <<>>
     [] c = "C18.create" -> /\ r.status = "ok" /\ PolicyOK("create", Ops(r))
                            /\ r.removed = <<>>
